@@ -30,6 +30,7 @@ type vSpy struct {
 	bodyBeforeHd bool   // a Write/Flush arrived while headers == 0
 	shortWrites  bool   // Write may accept fewer bytes than offered (with an error)
 	body         []byte // the bytes accepted, in order
+	strict       bool   // WriteHeader panics on a code outside [100,999], as net/http's response does
 }
 
 func (s *vSpy) Header() http.Header {
@@ -40,6 +41,9 @@ func (s *vSpy) Header() http.Header {
 }
 
 func (s *vSpy) WriteHeader(code int) {
+	if s.strict && (code < 100 || code > 999) {
+		panic("invalid WriteHeader code")
+	}
 	if s.headers == 0 {
 		s.firstCode = code
 	}
@@ -185,11 +189,10 @@ func VH_C13_step() {
 	hookSawHeader := false
 	pre := vRef{}
 	if sent {
-		// Inv: status != 0 <=> once done <=> spy.headers == 1; firstCode == status
-		rw.status = int32(status0)
-		rw.writeHeaderOnce.Do(func() {})
-		spy.headers = 1
-		spy.firstCode = status0
+		// Inv: status != 0 <=> the status has reached the underlying writer <=> spy.headers == 1; firstCode == status.
+		// The status is sent through the writer itself (whatever it uses to remember that is its own business).
+		rw.WriteHeader(status0)
+		vx.Assume(spy.headers == 1 && spy.firstCode == status0)
 		pre.status = status0
 		if method == "HEAD" {
 			vx.Assume(size0 == 0) // Inv: HEAD => nothing forwarded
